@@ -274,6 +274,36 @@ class Body:
             out.append(e)
         return out
 
+    def source_calls(self, operand, depth=0, seen=None):
+        """callee paths anywhere in the provenance of an operand, expanding
+        multiply-assigned locals through all their definitions (projections ignored)"""
+        if seen is None:
+            seen = set()
+        out = set()
+        o = self.origin(operand) if isinstance(operand, dict) else operand
+        for c in origin_calls(o):
+            if c[1]:
+                out.add(c[1])
+        if depth < 5:
+            for leaf in origin_leaves(o):
+                if leaf[0] == "local" and leaf[1] not in seen:
+                    seen.add(leaf[1])
+                    for bb, idx, kind, node in self.defs.get(leaf[1], []):
+                        if kind == "call":
+                            cal, _ = callee_of(node)
+                            if cal:
+                                out.add(cal)
+                            for a in node["args"]:
+                                out |= self.source_calls(a, depth + 1, seen)
+                        else:
+                            for op in _operands_of_rv(node["rv"]):
+                                out |= self.source_calls(op, depth + 1, seen)
+                            if node["rv"]["k"] in ("ref", "disc") or (node["rv"]["k"] == "use"):
+                                pl = node["rv"].get("pl")
+                                if pl is not None:
+                                    out |= self.source_calls({"cp": pl}, depth + 1, seen)
+        return out
+
     def place_origin(self, p, depth=0):
         l = p["l"]
         proj = self._const_index(p.get("p", []))
@@ -447,3 +477,145 @@ def short(path):
         return p
     parts = p.split("::")
     return "::".join(parts[-2:]) if len(parts) > 2 else p
+
+
+# ---------------------------------------------------------------- maybe-initialised places
+def _operands_of_rv(rv):
+    k = rv["k"]
+    if k in ("use", "cast", "repeat"):
+        return [rv["op"]]
+    if k == "bin":
+        return [rv["a"], rv["b"]]
+    if k == "un":
+        return [rv["a"]]
+    if k == "agg":
+        return rv["ops"]
+    return []
+
+
+def _first_field(place):
+    for e in place.get("p", []):
+        if e == "*":
+            return "deref"
+        if isinstance(e, list) and e[0] == "f":
+            return e[1]
+        if isinstance(e, list) and e[0] == "dc":
+            continue
+        return "other"
+    return None
+
+
+def maybe_init(body):
+    """Forward may-analysis (DESIGN §8a): per block IN state mapping
+    local -> frozenset(moved-out first-level fields).  A local absent from the
+    state is definitely uninitialised/moved.  Returns (IN, step) where
+    step(state, block_index, upto_terminator=True) gives the state before the terminator."""
+    nb = len(body.blocks)
+
+    def kill_move(state, place):
+        l = place["l"]
+        if l not in state:
+            return
+        ff = _first_field(place)
+        if ff is None:
+            del state[l]
+        elif ff == "deref" or ff == "other":
+            return  # moving out through a reference / index does not uninitialise the local
+        else:
+            state[l] = state[l] | {ff}
+
+    def use_operand(state, o):
+        if isinstance(o, dict) and "mv" in o:
+            kill_move(state, o["mv"])
+
+    def transfer(state, i, include_term=True):
+        state = dict(state)
+        b = body.blocks[i]
+        for s in b["s"]:
+            k = s["k"]
+            if k == "assign":
+                for o in _operands_of_rv(s["rv"]):
+                    use_operand(state, o)
+                lhs = s["lhs"]
+                ff = _first_field(lhs)
+                if ff is None:
+                    state[lhs["l"]] = frozenset()
+                elif ff not in ("deref", "other") and lhs["l"] in state:
+                    state[lhs["l"]] = state[lhs["l"]] - {ff}
+                elif ff not in ("deref", "other"):
+                    pass
+            elif k == "dead":
+                state.pop(s["l"], None)
+        pre_term = dict(state)
+        t = b["t"]
+        if t:
+            if t["k"] == "call":
+                for a in t["args"]:
+                    use_operand(state, a)
+                pre_term_after_args = dict(state)
+                d = t["dest"]
+                if _first_field(d) is None:
+                    state[d["l"]] = frozenset()
+                return (state, pre_term_after_args)
+            if t["k"] == "drop":
+                kill_move(state, t["pl"])
+            if t["k"] == "switch":
+                use_operand(state, t["d"])
+        return (state, pre_term)
+
+    IN = [None] * nb
+    init = {l: frozenset() for l in range(1, body.argc + 1)}
+    IN[0] = init
+    work = [0]
+    while work:
+        i = work.pop()
+        out, _ = transfer(IN[i], i)
+        for s in body.succ[i]:
+            if IN[s] is None:
+                IN[s] = dict(out)
+                work.append(s)
+            else:
+                merged = dict(IN[s])
+                changed = False
+                for l, mv in out.items():
+                    if l not in merged:
+                        merged[l] = mv
+                        changed = True
+                    else:
+                        m2 = merged[l] & mv
+                        if m2 != merged[l]:
+                            merged[l] = m2
+                            changed = True
+                if changed:
+                    IN[s] = merged
+                    work.append(s)
+
+    def at_call(i):
+        """state just before the call terminator of block i executes (its own moved args already consumed)"""
+        if IN[i] is None:
+            return {}
+        return transfer(IN[i], i)[1]
+
+    return IN, at_call
+
+
+def split_tuple_type(s):
+    """top-level components of a tuple type string"""
+    s = s.strip()
+    if not (s.startswith("(") and s.endswith(")")):
+        return None
+    inner = s[1:-1]
+    parts, depth, cur = [], 0, ""
+    for ch in inner:
+        if ch in "<([":
+            depth += 1
+        elif ch in ">)]":
+            depth -= 1
+        if ch == "," and depth == 0:
+            parts.append(cur.strip())
+            cur = ""
+        else:
+            cur += ch
+    if cur.strip():
+        parts.append(cur.strip())
+    return parts
